@@ -27,6 +27,8 @@ def log_runner(prop, tier):
                 sev2 = (sv * 2 + m + f) % 7      # second statement: another severity, or none (6)  -- same formulas as log_variant.h
                 form, tag, nlazy = (m + f + sv) % 3, (m + 2 * f + sv // 2) % 2, (m * 5 + f * 3 + sv) % 3
                 rep = (m + sv + f // 2) % 2 == 0
+                if prop == 'C05' and not th and (m + 2 * f + sv) % 4 == 3:
+                    continue      # quick tier of C05: three quarters of the covering subset (the skipped quarter differs from what C10 skips)
                 if prop == 'C10' and not th and nlazy == 0:
                     continue      # C10 is about lazily evaluated callables: its quick tier keeps the grid points that stream at least one (C05 runs all of them)
                 d = ['-DMINIDX=%d' % m, '-DFILT=%d' % f, '-DSEV=%d' % sv]
@@ -35,9 +37,10 @@ def log_runner(prop, tier):
                 w = (['statement disabled'] if False in outcomes else []) + (['statement emitted'] if True in outcomes else [])
                 if rep and len(outcomes) == 2:
                     w += ['emitted, then disabled by a threshold change', 'disabled, then enabled by a threshold change']
-                prof = [[0, 0, 97, 98, 99, 33, 42], [5, 5, 97, 0, 0, 33, 7], [2, 3, 0, 0, 98, 35, 99], [0, 5, 97, 98, 0, 36, 0], [3, 1, 97, 98, 99, 33, 10]]
+                # three threshold settings (every filter expression accepts under at least one of them), each with the longest streamed content
+                prof = [[0, 0, 97, 98, 99, 33, 42], [5, 5, 97, 98, 99, 33, 42], [0, 5, 97, 98, 99, 33, 42]]
                 if rep:
-                    prof = [p[:2] + t + p[2:] for p, t in zip(prof, ([5, 5], [0, 0], [3, 2], [5, 0], [0, 0]))]
+                    prof = [p[:2] + t + p[2:] for p, t in zip(prof, ([0, 0], [5, 5], [0, 5]))] + [[0, 0, 5, 5, 97, 0, 0, 33, 7]]
                 qs.append(Query('m%d_f%d_s%d' % (m, f, sv), d, w, unwind=2, hardcap=16, est_gb=1, profile=prof,
                                 sample={'compile_time_minimum': SEVN[m], 'filter': FILTN[f], 'statement_severity': SEVN[sv], 'second_statement': SEVN[sev2] if sev2 < 6 else None,
                                         'form': ['one expression', 'named stream object', 'named stream object with another statement of the same severity issued while it is open'][form], 'tag': bool(tag), 'lazy_callables': nlazy, 'threshold_change_then_same_severity_again': rep,
